@@ -90,6 +90,14 @@ def corpus():
             out.append(case_dict(kind, tr, True, 2, "c1:g p1 c2:s X k2:g p2 p1".split()))
             out.append(case_dict(kind, tr, True, 2, "c1:s X k1:b".split()))
             out.append(case_dict(kind, tr, True, 2, "c1:s k1:g p1 c2:s k2:b c3:s a3 c4:g p4 X".split()))
+        # a client resets (RST) or closes while INSIDE the authenticator; a connection reset right after the handshake with
+        # an authenticator configured (TCP): nothing may remain of them
+        for kind in KINDS:
+            z = "z" if tr == "tcp" else "a"
+            out.append(case_dict(kind, tr, True, 2, ("c1:s %s1 c2:g p2 c3:s %s3 c4:s a4 p2 g2 c5:g X" % (z, z)).split()))
+            if tr == "tcp":
+                out.append(case_dict(kind, tr, True, 2, "c1:r c2:r c3:g p3 c4:r c5:s z5 c6:r p3".split()))
+                out.append(case_dict(kind, tr, False, 2, "c1:g c2:r c3:r p1 z1 c4:r c5:g p5 X".split()))
         # one-shot: a second connection waits in the listen queue and is reset when the server closes itself
         out.append(case_dict("oneshot", tr, False, 1, "c1:g c2:g p1 a1 c3:g".split()))
         out.append(case_dict("oneshot", tr, True, 1, "c1:b c2:g".split()))
@@ -118,10 +126,13 @@ def gen_case(r):
         if slow and x < 22:
             k = r.choice(slow)
             slow.remove(k)
-            y = r.below(3)
-            toks.append(["k%d:g", "k%d:b", "a%d"][y] % k)
+            y = r.below(4)
+            toks.append(["k%d:g", "k%d:b", "a%d", "z%d" if transport == "tcp" else "a%d"][y] % k)
             if y == 0:
                 live.append(k)
+        elif transport == "tcp" and x < 30 and r.chance(1, 3):
+            toks.append("c%d:r" % nextk)                   # connects and resets at once
+            nextk += 1
         elif (not live or x < 28) and nextk <= nclients + closed:
             cred = "g"
             if auth and r.chance(1, 3):
@@ -143,7 +154,7 @@ def gen_case(r):
         elif live:
             k = r.choice(live)
             live.remove(k)
-            toks.append("a%d" % k)
+            toks.append(("z%d" if transport == "tcp" and r.chance(1, 3) else "a%d") % k)
     return case_dict(kind, transport, auth, nb, toks)
 
 
@@ -260,7 +271,7 @@ def oracle_case(case, known=(), ceiling=servers.CEILING):
         served_first = None
         for i, tok in enumerate(case["ops"]):
             t = tok[0]
-            if t not in "cpgaXk":
+            if t not in "cpgaXkz":
                 continue           # not an operation of this property
             obs = sess.do(tok)
             where = "after op %d (%s): " % (i, tok)
@@ -299,11 +310,11 @@ def oracle_case(case, known=(), ceiling=servers.CEILING):
                 return where + "a closed server answered client %s" % tok[1:], sig
             if closed or obs == "skip":
                 continue
-            if t in "ga" or (t == "c" and tok.endswith(":b")):
+            if t in "gaz" or (t == "c" and tok[-2:] in (":b", ":r")):
                 # a client has left (or was rejected): within the ceiling nothing refers to it any more
                 k = int(tok[1:].split(":")[0])
                 cl = sess.clients.get(k)
-                if t == "c":
+                if t == "c" and tok.endswith(":b"):
                     if cl is None:
                         continue
                     if not W(cl.sees_eof):
@@ -323,7 +334,7 @@ def oracle_case(case, known=(), ceiling=servers.CEILING):
                     if kind == "pool" and t == "c" and s["c"] > live():
                         sig = "C17:pool:authfail-leaves-clients-entry"
                     return (where + "with %d client(s) still connected the server holds %r" % (live(), s)), sig
-                if cl is not None and t in "ga":
+                if cl is not None and t in "gaz":
                     def hook_ok():
                         h = _hooks(sess).get(cl.peer)
                         return h is None or h["d"] == h["c"]
